@@ -123,7 +123,7 @@ def step_exprs(step):
     return []
 
 
-AGG_OPS = {"sum", "mean", "min", "max", "any", "all", "count", "count_star"}
+AGG_OPS = {"sum", "mean", "min", "max", "any", "all", "count", "count_star", "str.join"}
 WIN_OPS = {"row_number", "rank", "dense_rank", "shift", "cum_sum"}
 
 
